@@ -296,15 +296,17 @@ def r3(p, rep):
                 rep.add("C09.R3", f"{where}:read(.{n.attr})", f"{m.rel}:{n.lineno}", ok, f"`{norm(n)}` read outside the update_at lowering")
             # getattr(classical, name) for name in adapter.ops.<family>
             if isinstance(n, ast.Call) and isinstance(n.func, ast.Name) and n.func.id == "getattr" and len(n.args) == 2 and isinstance(n.args[1], ast.Name):
-                comp = enclosing(n, (ast.DictComp, ast.ListComp, ast.GeneratorExp))
-                if comp is None:
-                    continue
                 fam = None
-                for g in comp.generators:
-                    if isinstance(g.target, ast.Name) and g.target.id == n.args[1].id:
-                        ch = attr_chain(g.iter)
-                        if ch and ch[:2] == ["adapter", "ops"]:
-                            fam = ch[-1]
+                # the name ranges over an operation family: comprehension or explicit loop over adapter.ops.<family>
+                q = getattr(n, "_parent", None)
+                while q is not None and fam is None and not isinstance(q, (ast.FunctionDef, ast.AsyncFunctionDef, ast.Module)):
+                    gens = q.generators if isinstance(q, (ast.DictComp, ast.ListComp, ast.GeneratorExp, ast.SetComp)) else ([q] if isinstance(q, ast.For) else [])
+                    for g in gens:
+                        if isinstance(g.target, ast.Name) and g.target.id == n.args[1].id:
+                            ch = attr_chain(g.iter)
+                            if ch and len(ch) >= 2 and ch[-2] == "ops":
+                                fam = ch[-1]
+                    q = getattr(q, "_parent", None)
                 if fam is None:
                     continue
                 f = p.func_containing(n)
